@@ -123,21 +123,36 @@ struct Line {
 };
 
 // ---- buffers ------------------------------------------------------------------------------------
+// The model's small character codes {0, 97, 98, 200} (+ the filler 126) are mapped per instantiation onto real
+// characters.  1-byte types: identity (200 has the high bit set).  Wide types: order-preserving images that contain pairs with
+// EQUAL LOW BYTE but different value ('a' = 0x61 vs 0x161 / 0x10061; 0x100 whose low byte collides with the embedded null),
+// so an implementation that looks only at the low byte of a wide character is exposed.  The TLA+ side sees model codes only.
+template <typename C>
+constexpr unsigned long real_of_model(long v)
+{
+    if constexpr (sizeof(C) == 1) { return (unsigned long)(unsigned char)v; }
+    else if constexpr (std::is_same_v<C, wchar_t>) { return v == 98 ? 0x100ul : (v == 200 ? 0x161ul : (unsigned long)v); }
+    else if constexpr (std::is_same_v<C, char16_t>) { return v == 98 ? 0xA1ul : (v == 200 ? 0x100ul : (unsigned long)v); }
+    else { return v == 98 ? 0x100ul : (v == 200 ? 0x10061ul : (unsigned long)v); }
+}
 template <typename C>
 long code_of(C c)
 {
     if constexpr (sizeof(C) == 1) { return (long)(unsigned char)c; }
     else {
-        // garbage read through a broken view / size must still fit the 32-bit integers of the judge
-        unsigned long v = (unsigned long)(std::make_unsigned_t<C>)c;
-        return v > (1ul << 30) ? (long)(1ul << 30) : (long)v;
+        unsigned long raw = (unsigned long)(std::make_unsigned_t<C>)c;
+        for (long m : {0L, 97L, 98L, 200L, 126L}) {
+            if (real_of_model<C>(m) == raw) { return m; }
+        }
+        // a character nobody passed in (garbage read through a broken view / size): distinct from every model code and
+        // still inside the 32-bit integers of the judge
+        return 1000000 + (long)(raw > (1ul << 29) ? (1ul << 29) : raw);
     }
 }
 template <typename C>
 C char_of(long v)
 {
-    if constexpr (sizeof(C) == 1) { return (C)(unsigned char)v; }
-    else { return (C)v; }
+    return (C)real_of_model<C>(v);
 }
 
 template <typename C>
